@@ -57,6 +57,12 @@ func infoOf(fn *ssa.Function) *fnInfo {
 		p := o.Pkg.Pkg.Path()
 		fi.garble = strings.HasPrefix(p, "mvdan.cc/garble") && p != symxPath
 	}
+	if fi.garble && fn.Prog != nil && fn.Pos().IsValid() {
+		// harness code injected into garble's packages is not "code under check"
+		if f := fn.Prog.Fset.Position(fn.Pos()).Filename; strings.Contains(f, "zz_verif") {
+			fi.garble = false
+		}
+	}
 	v, _ := fnInfoCache.LoadOrStore(fn, fi)
 	return v.(*fnInfo)
 }
@@ -96,6 +102,20 @@ func init() {
 		symxPath + ".IntOfLit":   symxIntOfLit,
 		symxPath + ".BytesOfLit": symxBytesOfLit,
 		symxPath + ".Digest":     symxDigest,
+		symxPath + ".DigestPrefixFree": func(fr *frame, args []value) value {
+			fr.i.ex.digestPrefix = int(asInt64(args[0]))
+			if fr.i.ex.digestPrefix > 0 {
+				fr.i.ex.noteOnce(fmt.Sprintf("assumed: no two different inputs share the first %d bytes of their sha256 digest", fr.i.ex.digestPrefix))
+			}
+			return nil
+		},
+		symxPath + ".DigestClass": func(fr *frame, args []value) value {
+			fr.i.ex.digestIdx, fr.i.ex.digestMod, fr.i.ex.digestRem = int(asInt64(args[0])), uint64(asInt64(args[1])), uint64(asInt64(args[2]))
+			if fr.i.ex.digestMod > 0 {
+				fr.i.ex.noteOnce(fmt.Sprintf("assumed: byte %d of every symbolic sha256 digest is %d modulo %d (one name-length class)", fr.i.ex.digestIdx, fr.i.ex.digestRem, fr.i.ex.digestMod))
+			}
+			return nil
+		},
 		symxPath + ".Concretize": func(fr *frame, args []value) value { return fr.i.concValue(args[0]) },
 		symxPath + ".Ite":        symxIte,
 		symxPath + ".And": func(fr *frame, args []value) value {
@@ -693,7 +713,18 @@ func (ex *Exec) sha256(in []value) array {
 		for k := range app.out {
 			outEq = c.And(outEq, c.Eq(prev.out[k], app.out[k]))
 		}
+		if n := ex.digestPrefix; n > 0 && n < len(app.out) {
+			// stronger model: no two different inputs share the first n digest bytes
+			preEq := c.True
+			for k := 0; k < n; k++ {
+				preEq = c.And(preEq, c.Eq(prev.out[k], app.out[k]))
+			}
+			ex.assume(c.Eq(inEq, preEq))
+		}
 		ex.assume(c.Eq(inEq, outEq))
+	}
+	if ex.digestMod > 0 {
+		ex.assume(c.Eq(c.Bin(smt.OBvUrem, app.out[ex.digestIdx], c.Const(8, ex.digestMod)), c.Const(8, ex.digestRem)))
 	}
 	ex.ufApps = append(ex.ufApps, app)
 	ex.noteOnce("sha256 modelled as an uninterpreted, collision-free function on symbolic input")
